@@ -125,6 +125,17 @@ def check_one(chk, drv, cfg):
         return
     if 'refused' in ms:
         chk.diff('constructor outcome', case, ms['refused'], 'accepted' if res.ok else str(res.first_error())[:100])
+        # the real constructor accepted a grouping the model refuses: the walk on the real code decides whether data can be moved
+        if res.ok:
+            for i, (dst, ub) in enumerate(cfg['steps']):
+                recs = [v['steps'][i] for v in vals]
+                if not all(r['ok'] for r in recs):
+                    chk.fail('C03:data', 'the constructor accepted the grouping (the model refuses it: %s) and after step %d (-> %s) a rank does not '
+                             'hold the global field' % (ms['refused'][:60], i, dst), dict(case, step=i))
+                    break
+        else:
+            chk.fail('C03:transpose-raises', 'the constructor accepted the grouping (the model refuses it: %s) but a transpose raised: %s'
+                     % (ms['refused'][:60], str(res.first_error())[:120]), case)
         return
     if not res.ok:
         # a transpose raised on an accepted grouping: the property fails here (data cannot be moved)
